@@ -88,7 +88,7 @@ def parse_substitutions(seed, tier):
     failures, samples = [], []
     sep_accept = []
     t0 = time.time()
-    budget = 100 if tier == "quick" else 1200
+    budget = 100 if tier == "quick" else 900
     truncated = ""
     for m, n, slip in wallets:
         recs, net = CD.wallet(rng, n, slip132=slip)
